@@ -111,6 +111,15 @@ impl Model {
         }
     }
 
+    /// the clusters in a..b that hold data of their own
+    pub fn data_clusters_in(&self, a: u64, b: u64) -> Vec<u64> {
+        self.class
+            .range(a..b)
+            .filter(|(_, c)| **c == CClass::Data)
+            .map(|(g, _)| *g)
+            .collect()
+    }
+
     /// discard as C11 specifies it.  Returns the clusters that were released.
     pub fn discard(&mut self, off: u64, len: u64) -> Vec<u64> {
         let mut rel = vec![];
